@@ -35,3 +35,10 @@ package config
 //@   loop 1: invariant forall x string :: has(traceMap, x) <==> (exists k int :: 0 <= k && k < len(trace) && trace[k] == x)
 //@   loop 1: invariant forall x string :: has(traceMap, x) ==> traceMap[x]
 //@   loop 1: invariant forall x string :: has(allowMap, x) <==> (!has(traceMap, x) && exists k int :: 0 <= k && k <= rangeindex && allow[k] == x)
+
+// GetConf: whatever options are combined (program type, extra lists, allow-proc), the allow and trace lists it hands
+// to the filter builder are the OUTPUT of cleanTrace - disjoint, trace taking precedence - nothing is appended afterwards
+//@ func cmd/runprog/config.GetConf props C01
+//@   arith int
+//@   requires len(args) >= 1
+//@   ensures forall i int, j int :: 0 <= i && i < len(result.1) && 0 <= j && j < len(result.2) ==> result.1[i] != result.2[j]
